@@ -7,7 +7,7 @@ TECH = "contract-based deductive verification: CBMC 6.11 function/loop contracts
 CLAIMS = {
  'C17': dict(cat='other', ref='DESIGN.md §10',
    text='BOUNDED stand-in, forwarding part: the real jls_copy over source files of up to 2 chunks (any non-definition tag, metadata, payload <= 56 bytes), closed or unclosed with a torn tail: every readable FSR data / annotation / UTC / user-data chunk is re-issued through the writer with exactly the stored fields, once and in file order, structural chunks are not re-issued, source and destination are closed on every path, an unclosed original is copied successfully',
-   note='all callees are models; definition chunks are excluded; that the re-issued calls produce a file that reads back the same rests on C01/C11/C12/C13; known finding F35 (blocks stored only as summaries are not re-created: the copy differs) is reported by the variant unit B-copy-forward-F35; F28 and F34 fixed'),
+   note='all callees are models; definition chunks are covered by the variant unit B-copy-defs (field order/widths of the published layout, every field and string forwarded); that the re-issued calls produce a file that reads back the same rests on C01/C11/C12/C13; known finding F35 (blocks stored only as summaries are not re-created: the copy differs) is reported by the variant unit B-copy-forward-F35; F28 and F34 fixed'),
  'C01': dict(cat='other', ref='DESIGN.md §10',
    text='mixed: contract proofs for wr_data (block write/omission) and jls_buf_realloc; BOUNDED stand-ins (CBMC, unwinding assertions, real functions) for the sample packer jls_wr_fsr_data/wr_data_inner (any packer state, one write at any relative position, blocks of 2-4 bytes), the read window jls_core_fsr (signals of up to 3 blocks, every first sample id, every window, sub-byte unaligned starts, windows ending at the last sample) and the block lookup jls_core_fsr_seek (3 index levels); one arbitrary stored/returned sample compared bit for bit, lengths and block tiling checked',
    note='bounded units are labelled bounded in the evidence and are not proofs; block cache / omitted-block reconstruction / fsr_length are models in the read unit; composition writer->file->reader is argued, not machine-checked; known finding F23 (signals shorter than one summary entry are unreadable) is reported by the variant unit B-core-fsrseek-F23; defects F17 F32 found by these units and fixed'),
